@@ -253,6 +253,26 @@ def check(ctx):
                    f"exactly one request to the spa carrying the mode's index, then the local change (notified once iff the mode differs)",
                    repo.method("GeckoWaterCare", "async_set_mode").loc, sample={"rule": "R6", "request": str(req), "from": start, "log": [str(x) for x in log6]} if n6 % 3 == 1 else None)
     ctx.floor("R6", "watercare requests interpreted", n6, 8)
+    # the name table and the numbering agree: the number a name is sent as is its position in WATERCARE_MODE_STRING; the
+    # protocol's numbering is what the constants class gives its mode constants (`(AwayFromHome, Standard, ...) = range(5)`)
+    # - position i of the name table must hold the spelled-out name of the constant whose value is i
+    import re as _re6
+    gc6 = repo.cls("GeckoConstants")
+    names6 = None
+    for st6 in gc6.node.body:
+        if isinstance(st6, ast.Assign) and any(isinstance(t, ast.Name) and t.id == "WATERCARE_MODE" for t in st6.targets):
+            tup = next((t for t in st6.targets if isinstance(t, ast.Tuple)), None)
+            if tup is not None and all(isinstance(e, ast.Name) for e in tup.elts):
+                names6 = [e.id for e in tup.elts]
+    if names6 is None:
+        ctx.note("GeckoConstants.WATERCARE_MODE is not a tuple of named constants numbered by position - the agreement of the name table with the numbering is not decided")
+    else:
+        vals6 = [class_const(repo, "GeckoConstants", nm) for nm in names6]
+        spelled = {v: " ".join(_re6.findall(r"[A-Z][a-z0-9]*", nm)) for nm, v in zip(names6, vals6) if isinstance(v, int)}
+        bad6 = [(i, labels6[i], spelled.get(i)) for i in range(len(labels6)) if spelled.get(i) is not None and "".join(labels6[i].split()).lower() != "".join(spelled[i].split()).lower()]
+        ctx.ob("R6", "WATERCARE_MODE_STRING::agrees-with-the-mode-constants", not bad6 and len(spelled) == len(labels6),
+               f"GeckoConstants: the mode name table and the mode constants disagree at {[(i, lab, 'constant: ' + str(sp)) for i, lab, sp in bad6]} ({len(spelled)} constants, {len(labels6)} names): a mode requested by name is sent as "
+               f"the number of ANOTHER mode, and read back under the requested name", gc6.loc if hasattr(gc6, "loc") else None, sample={"rule": "R6", "names": list(labels6), "constants": names6})
     sw = repo.own_method("GeckoAsyncSpa", "async_set_watercare")
     c = None
     for n in ast.walk(sw.node):
